@@ -27,6 +27,30 @@ TRUSTED_BASE = [
 ]
 
 
+BASELINE_FILE = os.path.join(HERE, "baseline", "obligations.json")
+BASELINE: Dict[str, Any] = {}
+if os.path.exists(BASELINE_FILE):
+    try:
+        BASELINE = json.load(open(BASELINE_FILE))
+    except Exception:   # a damaged baseline only switches the escalation off
+        BASELINE = {}
+
+
+def source_sha(target: str, inlined: List[str]) -> str:
+    """hash of the text the obligations of `target` were generated from: the function and the functions inlined into it"""
+    import hashlib
+    import ast as _ast
+    from pyvc.loader import lookup
+    h = hashlib.sha256()
+    for q in [target] + sorted(set(inlined)):
+        try:
+            fi = lookup(q)
+            h.update(_ast.dump(fi.node).encode())       # the AST: comments and layout do not count
+        except Exception as e:
+            h.update(f"<{q}: {type(e).__name__}>".encode())
+    return h.hexdigest()[:16]
+
+
 def load_contracts() -> Dict[str, Any]:
     import contracts  # noqa: F401
     contracts.load_all()
@@ -53,6 +77,19 @@ def _worker(args: Tuple[str, float, str]) -> Dict[str, Any]:
         c = REGISTRY[target]
         rep = verify_function(c, timeout_s=timeout_s)
         clauses = {cl.label: cl for cl in c.ensures + c.canaries}
+        src_sha = source_sha(target, rep.inlined)
+        base = BASELINE.get(target)
+        changed = bool(base) and base.get("sha") != src_sha
+        if changed:
+            # the function's text differs from the baseline tree: give every undecided obligation a second, longer attempt
+            # before it is compared with the baseline verdicts
+            from pyvc.verify import _solve_one
+            for o in rep.obligations:
+                if o.result is not None and o.result.status not in ("sat", "unsat") and not o.must_fail \
+                        and o.result.backend != "skipped":
+                    r2 = _solve_one(o, timeout_s * 3)
+                    if r2.status in ("sat", "unsat"):
+                        o.result = r2
         obs = []
         confirmed: Dict[Any, str] = {}
         attempts: Dict[Any, int] = {}
@@ -84,6 +121,7 @@ def _worker(args: Tuple[str, float, str]) -> Dict[str, Any]:
         return {"target": target, "status": rep.status, "reason": rep.reason, "paths": rep.paths,
                 "infeasible": rep.infeasible, "seconds": time.time() - t0, "obligations": obs,
                 "calls_by_contract": rep.calls_by_contract, "inlined": rep.inlined, "trusted": c.trusted,
+                "src_sha": src_sha, "src_changed": changed,
                 "pre_witness": rep.pre_witness, "partial_raises": [list(x) for x in getattr(rep, "partial_raises", [])]}
     except Exception as e:
         return {"target": target, "status": "error", "reason": f"{type(e).__name__}: {e}\n{traceback.format_exc()[-1200:]}",
@@ -120,6 +158,7 @@ def run_property(pid: str, tier: str, seed: int) -> int:
     obligations = discharged = 0
     undecided: List[Dict[str, Any]] = []
     refuted: List[Dict[str, Any]] = []
+    regressed: List[str] = []
     violations: List[Tuple[str, str]] = []
     known_lines: List[str] = []
     stale: List[str] = []
@@ -171,7 +210,27 @@ def run_property(pid: str, tier: str, seed: int) -> int:
             elif o["status"] == "sat":
                 refuted.append(o)
             else:
-                undecided.append({"obligation": o["name"], "reason": o["reason"] or "solver unknown/timeout"})
+                base = BASELINE.get(r["target"], {})
+                lab = f"{o['kind']}|{o['label'].split('#')[0]}"
+                if r.get("src_changed") and base.get("labels", {}).get(lab) == "unsat":
+                    # discharged on the baseline tree, the function's text has changed since, and the obligation is no
+                    # longer provable (after a second attempt with a longer budget): reported, without an input
+                    fname = ("regressed_" + o["name"].replace("/", "_").replace(":", "_").replace("[", ".").replace("]", "")
+                             .replace("@", "."))[-150:]
+                    path = os.path.join(REPLAYS, pid, fname + ".json")
+                    json.dump({"property": pid, "obligation": o["name"], "kind": o["kind"], "clause": o["label"], "where": o["where"],
+                               "verdict": "no longer provable", "solver": {"backend": o["backend"], "status": o["status"], "reason": o["reason"]},
+                               "baseline": {"tree": base.get("tree"), "function_text_hash": base.get("sha"), "verdict": "discharged"},
+                               "now": {"function_text_hash": r.get("src_sha")},
+                               "note": "every obligation of this clause was discharged on the baseline tree; the text of the function "
+                                       "(or of a function inlined into it) has changed and the solvers can no longer prove it "
+                                       "(no counter-model either): no failing input is available"},
+                              open(path, "w"), indent=1, default=str)
+                    if not any(pth == path for pth, _ in violations):
+                        violations.append((path, " no-failing-input-found"))
+                    regressed.append(o["name"])
+                else:
+                    undecided.append({"obligation": o["name"], "reason": o["reason"] or "solver unknown/timeout"})
     from vf.witness import still_present
     for fid, f in known_ids.items():
         if pid not in f.get("properties", []):
@@ -233,7 +292,7 @@ def run_property(pid: str, tier: str, seed: int) -> int:
         "obligations": obligations, "discharged": discharged,
         "checker_cmd": f"./vcheck {pid} --tier {tier}", "trusted_base": TRUSTED_BASE,
         "functions_under_contract": funcs, "by_backend": by_backend, "solver_seconds": round(solver_seconds, 3),
-        "undecided": undecided[:200], "refuted": [{"obligation": o["name"], "replay": o.get("replay", {}).get("status")}
+        "undecided": undecided[:200], "regressed_against_baseline": regressed[:50], "refuted": [{"obligation": o["name"], "replay": o.get("replay", {}).get("status")}
                                                   for o in refuted],
         "canaries": {"total": len(canary), "not_provable_as_required": sum(1 for v in canary.values() if v),
                      "refuted_with_model": sum(1 for v in canary_sat.values() if v)},
@@ -275,6 +334,35 @@ def run_property(pid: str, tier: str, seed: int) -> int:
     return 0
 
 
+def cmd_baseline() -> int:
+    """(developer command) record, for every function under contract, the hash of its text and the clauses whose obligations
+    are all discharged on /repo's current tree.  The file is committed; checks never write it."""
+    if os.path.realpath(os.environ.get("VERIF_REPO", "/repo")) != "/repo":
+        print("baseline is taken from /repo only", file=sys.stderr)
+        return 3
+    import subprocess
+    reg = load_contracts()
+    targets = [t for t, c in reg.items() if not c.trusted]
+    BASELINE.clear()     # hashes only: no comparison while recording
+    with mp.get_context("fork").Pool(16) as pool:
+        results = pool.map(_worker, [(t, 20.0, "quick") for t in targets], chunksize=1)
+    tree = subprocess.run(["git", "-C", "/repo", "rev-parse", "--short", "HEAD"], capture_output=True, text=True).stdout.strip()
+    out: Dict[str, Any] = {}
+    for r in results:
+        labels: Dict[str, str] = {}
+        for o in r["obligations"]:
+            if o["must_fail"] or o["finding"]:
+                continue
+            lab = f"{o['kind']}|{o['label'].split('#')[0]}"
+            st = "unsat" if o["status"] == "unsat" else "other"
+            labels[lab] = st if labels.get(lab, "unsat") == "unsat" else "other"
+        out[r["target"]] = {"sha": r.get("src_sha"), "tree": tree, "status": r["status"], "labels": labels}
+    os.makedirs(os.path.dirname(BASELINE_FILE), exist_ok=True)
+    json.dump(out, open(BASELINE_FILE, "w"), indent=0, sort_keys=True)
+    print(f"baseline of {len(out)} functions written ({sum(1 for v in out.values() for x in v['labels'].values() if x == 'unsat')} clauses discharged)")
+    return 0
+
+
 def cmd_replay(path: str) -> int:
     d = json.load(open(path))
     print(json.dumps(d, indent=1)[:4000])
@@ -300,6 +388,8 @@ def main(argv: Optional[List[str]] = None) -> int:
         return cmd_list()
     if argv[0] == "replay":
         return cmd_replay(argv[1])
+    if argv[0] == "baseline":
+        return cmd_baseline()
     if argv[0] == "selftest":
         from vf.selftest import main as st_main
         return st_main(argv[1:])
